@@ -14,7 +14,10 @@ use std::sync::atomic::{AtomicBool, Ordering};
 use std::sync::Mutex;
 use std::time::Instant;
 
-pub const VERIF: &str = "/verif";
+/// root of the verification tree: the directory of the `check` script that started us (default /verif)
+pub fn verif_root() -> String {
+    std::env::var("VERIF_ROOT").ok().filter(|s| !s.is_empty()).unwrap_or_else(|| "/verif".to_string())
+}
 
 #[derive(Clone, Copy, Debug, PartialEq, Eq)]
 pub enum Tier {
@@ -140,7 +143,7 @@ pub struct Finding {
 }
 
 pub fn load_findings(prop: &str) -> Vec<Finding> {
-    let path = format!("{VERIF}/known_findings.json");
+    let path = format!("{}/known_findings.json", verif_root());
     let Ok(txt) = std::fs::read_to_string(&path) else { return vec![] };
     let all: Vec<Finding> = match serde_json::from_str(&txt) {
         Ok(v) => v,
@@ -376,7 +379,7 @@ fn shard_main<P: Prop>(prop: &P, tier: Tier, seed: u64, shard: usize, nshards: u
 }
 
 fn write_replay(prop: &str, seed: u64, tier: &str, v: &Violation) -> String {
-    let dir = format!("{VERIF}/replays");
+    let dir = format!("{}/replays", verif_root());
     let _ = std::fs::create_dir_all(&dir);
     let body = json!({"property": prop, "seed": seed, "tier": tier, "phase": v.phase, "message": v.msg, "case": v.case});
     let txt = serde_json::to_string_pretty(&body).unwrap();
@@ -447,7 +450,7 @@ pub fn main_check<P: Prop>(tier: Tier) -> i32 {
         }
         // 2. regression seeds
         if violation.is_none() {
-            let dir = format!("{VERIF}/replays/regress/{}", P::ID);
+            let dir = format!("{}/replays/regress/{}", verif_root(), P::ID);
             let mut files: Vec<_> = std::fs::read_dir(&dir).map(|d| d.filter_map(|e| e.ok()).map(|e| e.path()).collect()).unwrap_or_default();
             files.sort();
             for f in files {
@@ -532,8 +535,8 @@ pub fn main_check<P: Prop>(tier: Tier) -> i32 {
         "violations": nviol,
         "known_findings_reported": known_lines,
     });
-    let _ = std::fs::create_dir_all(format!("{VERIF}/evidence"));
-    let _ = std::fs::write(format!("{VERIF}/evidence/{}.json", P::ID), serde_json::to_string_pretty(&ev).unwrap() + "\n");
+    let _ = std::fs::create_dir_all(format!("{}/evidence", verif_root()));
+    let _ = std::fs::write(format!("{}/evidence/{}.json", verif_root(), P::ID), serde_json::to_string_pretty(&ev).unwrap() + "\n");
     println!(
         "{} {}: evaluations={} distinct_nontrivial={} excluded_known={} discarded={} wall={:.1}s => {}",
         P::ID,
